@@ -11,7 +11,7 @@ GroupNos(S) == { Resources(S)[i].group : i \in DOMAIN Resources(S) }
 GroupVars(S, g) == SelectSeq(Resources(S), LAMBDA r : r.group = g)
 (* group numbers in index order; they are decimal strings of small naturals here *)
 Digit(c) == CASE c = "0" -> 0 [] c = "1" -> 1 [] c = "2" -> 2 [] c = "3" -> 3 [] c = "4" -> 4 [] c = "5" -> 5 [] c = "6" -> 6 [] c = "7" -> 7 [] c = "8" -> 8 [] OTHER -> 9
-NumOf == [ s \in {"0", "1", "2", "3", "4", "5", "6", "7"} |-> Digit(s) ]
+NumOf == [ s \in { ToString(i) : i \in 0 .. 31 } |-> CHOOSE i \in 0 .. 31 : ToString(i) = s ]
 GroupOrder(S) == LET n == Cardinality(GroupNos(S)) IN [ i \in 1 .. n |-> CHOOSE g \in GroupNos(S) : g \in DOMAIN NumOf /\ NumOf[g] = i - 1 ]
 
 (* ---- segmentation of the recorded run: << [op, arg, evs] >> ---- *)
